@@ -24,9 +24,12 @@ func vTTLResp(tag string, nrec int, withOpt bool) (*dnsmsg.Msg, []uint32) {
 	for i := 0; i < nrec; i++ {
 		a := vA(tag + ".an")
 		ttls = append(ttls, a.TTL)
-		if i == 0 {
+		switch {
+		case i == 0:
 			m.Answers = append(m.Answers, a)
-		} else {
+		case verifrt.Bool(tag + ".rec.in-additional"):
+			m.Additionals = append(m.Additionals, a) // glue: counts for the lifetime and ages like any other record
+		default:
 			m.Authorities = append(m.Authorities, a)
 		}
 	}
@@ -131,6 +134,11 @@ func VerifH_C08_Ageing_S3() {
 	for _, rr := range m.Authorities {
 		got = append(got, rr.Hdr().TTL)
 	}
+	for _, rr := range m.Additionals {
+		if rr.Hdr().Type != dnsmsg.TypeOPT {
+			got = append(got, rr.Hdr().TTL)
+		}
+	}
 	verifrt.Assert(len(got) == len(ttls), "same records")
 	for i, t := range ttls {
 		g := got[i]
@@ -178,5 +186,55 @@ func VerifH_C08_NegativeNeverDisplaces() {
 		verifrt.Reach("failed")
 		v, _, _ := r2.cache.memory.Get(cacheKey(q2, ""))
 		verifrt.Assert(v == nil, "a failed exchange is never cached")
+	}
+}
+
+// VerifH_C08_AgeingAllSections: one record in EACH of the three sections with fixed TTLs (100, 7, 3) and an
+// arbitrary clock: every one of them is served aged by the whole seconds elapsed (floor 1) – no section is skipped.
+func VerifH_C08_AgeingAllSections() {
+	verifrt.Unwind(40)
+	r := vRouter(nil, true)
+	c := r.cache
+	resp, _ := vTTLResp("resp", 0, false)
+	verifrt.Assume(!resp.Header.Truncated && resp.Header.RCode == 0)
+	ttls := []uint32{100, 7, 3}
+	for i, t := range ttls {
+		a := vA("rec")
+		a.TTL = t
+		switch i {
+		case 0:
+			resp.Answers = append(resp.Answers, a)
+		case 1:
+			resp.Authorities = append(resp.Authorities, a)
+		default:
+			resp.Additionals = append(resp.Additionals, a)
+		}
+	}
+	q := resp.Questions[0].Copy()
+	c.Store(q, netip.Addr{}, resp)
+	rc := getRequestContext()
+	tA := time.Now()
+	m, stored, _ := c.Get(context.Background(), q, rc)
+	tB := time.Now()
+	if m == nil {
+		verifrt.Reach("expired")
+		verifrt.Assert(tB.Sub(stored) >= 3*time.Second-2*time.Second, "an entry only disappears once its lifetime (3 s here, 2 s granularity) is over")
+		return
+	}
+	verifrt.Reach("hit")
+	// (expiry itself happens inside otter, which the model does not age: only hits in a sane time range are judged)
+	verifrt.Assume(tB.Sub(stored) < time.Duration(1<<32)*time.Second)
+	lo, hi := uint32(tA.Sub(stored).Seconds()), uint32(tB.Sub(stored).Seconds())
+	verifrt.Assert(len(m.Answers) == 1 && len(m.Authorities) == 1 && len(m.Additionals) == 1, "all records are served")
+	got := []uint32{m.Answers[0].Hdr().TTL, m.Authorities[0].Hdr().TTL, m.Additionals[0].Hdr().TTL}
+	for i, t := range ttls {
+		var ub, lb uint32 = 1, 1
+		if t > lo {
+			ub = t - lo
+		}
+		if t > hi {
+			lb = t - hi
+		}
+		verifrt.Assert(got[i] >= lb && got[i] <= ub, "every section's TTL is reduced by exactly the whole seconds elapsed (floor 1)")
 	}
 }
